@@ -528,6 +528,21 @@ func TestC19(t *testing.T) {
 			c.Event("backlog_cases", 1)
 		}
 	})
+	// replies the library builds itself: a state machine's CEA and DWA (and an application answer)
+	// for requests that arrive on different streams of one association
+	dctx := defCtx(t)
+	sts := []uint16{0, 1, 3, 7, 15, 65535}
+	rec.Suite("state-machine-replies", len(sts)*len(sts)*2, func(c *ev.Case) {
+		a, b := sts[c.I%len(sts)], sts[(c.I/len(sts))%len(sts)]
+		d := sts[(c.I*5+1)%len(sts)]
+		deferred := c.I/(len(sts)*len(sts)) == 1
+		c.Class("state-machine-replies/cer=%d/dwr=%d/deferred=%v", a, b, deferred)
+		leak := runBubbleWD(t, rec, c, 60*time.Second, func() { runC16Stream(c, dctx, a, b, d, c.I%5 == 0, false, deferred, false, false) })
+		if leak != "" && !c.Failed() {
+			c.Fail(ev.Sig{"op": "bubble-leak"}, nil, nil, "goroutines left blocked: %s", leak)
+		}
+		c.Event("replies_checked", 3)
+	})
 	// large cases: random merges
 	rec.Suite("large-random-merges", rec.N(600, 200000), func(c *ev.Case) {
 		ns := []int{1, 2, 3, 16}[c.R.IntN(4)]
